@@ -45,11 +45,10 @@ FuncName(B, f) ==
     [] OTHER -> IF Len(f) > 5 /\ SubSeq(f, 1, 5) = "Cust:" THEN UpperStr(SubSeq(f, 6, Len(f))) ELSE "?" \o f
 
 Neg(e) == "neg" \in DOMAIN e /\ e.neg
-CanonCol(n) ==
-  IF n = "*" THEN [k |-> "star", q |-> <<>>]
-  ELSE IF n \in STRING THEN [k |-> "col", q |-> <<>>, n |-> n]
-  ELSE IF n[Len(n)] = "*" THEN [k |-> "star", q |-> SubSeq(n, 1, Len(n) - 1)]
-  ELSE [k |-> "col", q |-> SubSeq(n, 1, Len(n) - 1), n |-> n[Len(n)]]
+\* a column case expression is [k:"col", n: name or "*", q: optional qualifiers]
+CanonCol(e) ==
+  LET q == IF "q" \in DOMAIN e THEN e.q ELSE <<>> IN
+  IF e.n = "*" THEN [k |-> "star", q |-> q] ELSE [k |-> "col", q |-> q, n |-> e.n]
 
 NumTree(s) == IF Len(s) > 1 /\ Ch(s, 1) = "-" THEN [k |-> "un", op |-> "-", e |-> [k |-> "num", t |-> SubSeq(s, 2, Len(s))]]
               ELSE [k |-> "num", t |-> s]
@@ -75,7 +74,7 @@ CanonCond(B, c) ==
        IN IF Neg(c) THEN [k |-> "un", op |-> "NOT", e |-> body] ELSE body
 
 Canon(B, e) ==
-  CASE e.k = "col" -> CanonCol(e.n)
+  CASE e.k = "col" -> CanonCol(e)
     [] e.k \in {"val", "const"} -> CanonVal(e.v)
     [] e.k = "not" -> [k |-> "un", op |-> "NOT", e |-> Canon(B, e.e)]
     [] e.k = "bin" ->
